@@ -407,6 +407,16 @@ def l4_programs(ty="i32"):
         [["bin", "*", "p0", "p0", ty], ["jmp", 3]],
         [["bin", "*", "p1", "p1", ty], ["jmp", 3]],
         [["phi", ty, [[1, "%0"], [2, "%0"]]], ["phi", ty, [[1, "%1"], [2, "%2"]]], ["bin", "+", "%3", "%4", ty], ["ret", "%5"]]]}]})
+    # single-input phis in a block whose only predecessor ends in a plain jump (CleanPass.glue_blocks must resolve them)
+    progs.append({"name": "l4_single_phi", "functions": [{"name": "f", "ret": ty, "params": [ty, ty], "blocks": [
+        [one, ["bin", "+", "p0", "%0", ty], ["jmp", 1]],
+        [["phi", ty, [[0, "%1"]]], ["phi", ty, [[0, "p1"]]], ["bin", "*", "%2", "%3", ty], ["ret", "%4"]]]}]})
+    progs.append({"name": "l4_single_phi_after_diamond", "functions": [{"name": "f", "ret": ty, "params": [ty, ty], "blocks": [
+        [one, ["cjmp", "p0", "<", "p1", 1, 2]],
+        [["jmp", 3]],
+        [["jmp", 3]],
+        [["phi", ty, [[1, "p0"], [2, "p1"]]], ["jmp", 4]],
+        [["phi", ty, [[3, "%1"]]], ["bin", "+", "%2", "%0", ty], ["ret", "%3"]]]}]})
     # tail recursion: f(a, b) = a <= 0 ? b : f(a-1, b+a)
     progs.append({"name": "l4_tailrec", "functions": [{"name": "f", "ret": ty, "params": [ty, ty], "blocks": [
         [["const", ty, 0], one, ["cjmp", "p0", "<=", "%0", 1, 2]],
